@@ -271,6 +271,15 @@ def getDeclaredPkgID : TypeShape → PkgID
   | .ptrTo t => getDeclaredPkgID t
   | _ => none
 
+/-- the type expression contains the type declared in package `p` -/
+def TypeShape.mentions : TypeShape → Nat → Bool
+  | .declared q, p => q == p
+  | .ptrTo t, p => t.mentions p
+  | .sliceOf t, p => t.mentions p
+  | .arrayOf t, p => t.mentions p
+  | .mapOf t, p => t.mentions p
+  | .anon, _ => false
+
 /-- `refusePersistRealmHIV(hiv)` for a HeapItem holding a value of the concrete
     realm type; `origin = isOriginRealmHIV(hiv)` (prev field nil, no subpath) -/
 def refusePersistRealm (realmTyped origin : Bool) : Except Err Unit :=
@@ -405,14 +414,16 @@ def resolveTV (W : World) (c : Ctx) : TVRef → TV
 
 /-- the `co` branch of DidUpdate (after the guard succeeded with `marked`) -/
 def attachEffect (W : World) (c : Ctx) (co : OID) : Ctx :=
-  let rid : PkgID := c.st.realm
-  if W.isImmutablePkg co.pkg && co.pkg != rid then c   -- "Skip — immutable package objects"
+  if W.isImmutablePkg co.pkg && co.pkg != c.st.realm then c   -- "Skip — immutable package objects"
   else if co.isReal then
     -- co.IncRefCount(); rlm.MarkDirty(co)
     { c with metas := (c.st.realm, co) :: c.metas }
   else
     -- co.SetOwner(po); rlm.MarkNewReal(co): saved under its stamp, or under rlm if unstamped
-    { c with news := (c.st.realm, (if co.pkg.isSome then co.pkg else rid)) :: c.news }
+    { c with news := (c.st.realm, (if co.pkg.isSome then co.pkg else c.st.realm)) :: c.news }
+
+/-- the pointer base a NameExpr write resolves to -/
+def nameBase (hiv : Bool) (o : OID) : Base := if hiv then .hiv o else .obj o
 
 /-- The abstract machine.  `Except` = the tx aborts with that panic. -/
 def run (W : World) : Ev → Ctx → Except Err Ctx
@@ -439,8 +450,7 @@ def run (W : World) : Ev → Ctx → Except Err Ctx
   | .ro tv next, c =>
     if isReadonly W c.st (resolveTV W c tv) then .error .readonly else run W next c
   | .roName hiv base next, c =>
-    let b : Base := if hiv then .hiv (resolveOid W c base) else .obj (resolveOid W c base)
-    if isExternalRealm W c.st b then .error .readonly else run W next c
+    if isExternalRealm W c.st (nameBase hiv (resolveOid W c base)) then .error .readonly else run W next c
   | .conv tv own next, c =>
     match convGuard W c.st (resolveTV W c tv) own with
     | .error e => .error e
@@ -465,9 +475,8 @@ def run (W : World) : Ev → Ctx → Except Err Ctx
         else c
       run W next c1
   | .adopt co next, c =>
-    let o := resolveOid W c co
-    let rid : PkgID := c.st.realm
-    run W next { c with news := (c.st.realm, (if o.pkg.isSome then o.pkg else rid)) :: c.news }
+    run W next { c with news := (c.st.realm,
+      (if (resolveOid W c co).pkg.isSome then (resolveOid W c co).pkg else c.st.realm)) :: c.news }
   | .persistRealm origin next, c =>
     match refusePersistRealm true origin with
     | .error e => .error e
